@@ -57,7 +57,7 @@ def table_says(lang, numtype, rank):
     return OFFERED[numtype][col] and (rank == 1 or NDOK[col])
 
 
-def mk_handle(w, path, extents, numtype, bolabel):
+def mk_handle(w, path, extents, numtype, bolabel, stale=None):
     d = w.mkdirs(path if path.startswith('/') else '/w/' + path)
     f = File()
     f.bin = Seq()
@@ -75,6 +75,18 @@ def mk_handle(w, path, extents, numtype, bolabel):
     a._accessmode = 'r'
     a._memmap = None
     a._valuesfd = None
+    a._memmapusers = 0
+    # everything Array.__init__ caches (a changed /repo may use the cached copies). `stale` makes the cached
+    # first-axis length differ from what is on disk (another handle appended since this one was opened):
+    # the generated code must describe the stored array, not the handle's memory of it.
+    cached = list(extents)
+    if stale is not None:
+        cached[0] = stale
+    a._shape = tuple(cached)
+    a._dtype = np.SymDType(numtype, gt_of(numtype, bolabel))
+    a._size = symnp._prod(cached)
+    a._metadata = D.metadata.MetaData(a._path / a._metadatafilename, accessmode='r',
+                                      callatfilecreationordeletion=a._update_readmetxt)
     return a
 
 
@@ -123,7 +135,7 @@ def check_denotation(den, lang, numtype, bolabel, extents, expected_path):
                                 order=den['order'])
 
 
-def h_readcode(n0: int, n1: int, n2: int, n3: int, numtype='int32', bo='little', rank=2,
+def h_readcode(n0: int, n1: int, n2: int, n3: int, st: int, numtype='int32', bo='little', rank=2,
                langs=tuple(LANGS), relhandle=False, _gate=None, _small=False):
     ext = [n0, n1, n2, n3]
     for x in ext[:rank]:
@@ -134,7 +146,8 @@ def h_readcode(n0: int, n1: int, n2: int, n3: int, numtype='int32', bo='little',
     extents = ext[:rank]
     w = new_world()
     hpath = 'dat/arr' if relhandle else '/w/dat/arr'
-    a = mk_handle(w, hpath, extents, numtype, bo)
+    assume(1 <= st <= 2 ** 40)
+    a = mk_handle(w, hpath, extents, numtype, bo, stale=st)     # cached length st, stored length n0
     offered_now = []
     flags = {'matlab_complex_nd_quoting': False, 'python_ignores_path': False, 'numpymemmap_default_mode': False}
     for lang in langs:
@@ -295,8 +308,12 @@ def replay_readcode(cex, d):
     from ..lang.syntax import IllFormed as IF
     with rp.scratch() as tmp:
         small_ext = [min(x, 4) + i for i, x in enumerate(ext)]      # distinct small extents
-        ref = rp.values(np_, small_ext[0], tuple(small_ext[1:]), numtype, bo)
-        a = darr.asarray(tmp + '/arr', ref)
+        ref0 = rp.values(np_, small_ext[0] + 2, tuple(small_ext[1:]), numtype, bo)
+        a = darr.asarray(tmp + '/arr', ref0[:2])
+        # the handle `a` is opened BEFORE another handle appends: its cached shape is stale, the
+        # generated code must describe what is stored
+        darr.Array(tmp + '/arr', accessmode='r+').append(ref0[2:])
+        ref = ref0
         probs = []
         if lang in ('numpy', 'numpymemmap', 'python', 'darr'):
             for mode in ('relative', 'base', 'abs'):
@@ -318,7 +335,7 @@ def replay_readcode(cex, d):
                 probs.append(f'{lang} offered although the table withholds it')
             try:
                 den = arraycode.INTERPRETERS[lang](code)
-                check_denotation(den, lang, numtype, bo, small_ext, exp)
+                check_denotation(den, lang, numtype, bo, [small_ext[0] + 2] + small_ext[1:], exp)
             except IF as e:
                 probs.append(f'{lang} ({mode}): real readcode() output is not well-formed: {e}: {code!r}')
             except Violation as v:
